@@ -11,7 +11,7 @@ EXTOFF  (C01, C16) an external element's bytes live at `extern_offset + posn` of
 """
 from .facts import kind, strip, walk, path, render, int_val, is_int, calls_in, mem_field, base_var
 from .codec import ast_walk
-from .flow import PathAnalysis, fail_values
+from .flow import PathAnalysis, fail_values, classify_ret
 
 MAX_REF = 65535
 
@@ -533,3 +533,56 @@ def rule_seek_resets_cursor(ctx):
             ctx.holds("SEEKRESET", key, sk.where(), "seek assigns every cursor field of the coder state (%s)" % ", ".join(sorted(mf[1] for mf in cursor)), nontrivial=True)
     ctx.floor("SEEKRESET", 4, n, "(coders with a seek routine)")
     return n
+
+
+class _RegMax(PathAnalysis):
+    def __init__(self, prog, refparam):
+        super().__init__(prog)
+        self.refparam = refparam
+        self.bad = []
+
+    def init_user(self, func):
+        return False
+
+    def on_assume(self, func, bid, cond, pol, env, user):
+        c = strip(cond)
+        if kind(c) == "bin" and c[1] in (">", "<", ">=", "<="):
+            l, r = strip(c[2]), strip(c[3])
+            lm = (mem_field(l) or (0, 0))[1] == "maxref"
+            rm = (mem_field(r) or (0, 0))[1] == "maxref"
+            lp = kind(l) == "var" and l[1] == self.refparam
+            rp = kind(r) == "var" and r[1] == self.refparam
+            # ref > maxref false  /  maxref < ref false  ==> maxref already covers ref
+            if (lp and rm and c[1] == ">" and not pol) or (lm and rp and c[1] == "<" and not pol):
+                return True
+        return user
+
+    def on_stmt(self, func, bid, idx, stmt, env, user):
+        for x in walk(stmt["e"], True):
+            if x[0] == "asg" and x[1] == "=" and (mem_field(x[2]) or (0, 0))[1] == "maxref" and kind(strip(x[3])) == "var" and strip(x[3])[1] == self.refparam:
+                return True
+        return user
+
+    def on_exit(self, func, bid, retval, env, user):
+        if not user and classify_ret(retval, self.fails) != "fail":
+            self.bad.append(bid)
+
+
+def rule_maxref_registered(ctx):
+    """MAXREG (C12): HTPcreate is the one routine that enters a new tag/ref into the directory.  Because Hnewref's fast path
+    returns ++maxref without searching, HTPcreate leaves `maxref >= ref` on every non-failing path (callers such as Hdupdd pass
+    reference numbers chosen by the application)."""
+    prog = ctx.prog
+    f = prog.func("HTPcreate")
+    if f is None:
+        ctx.unrecognised("MAXREG", "MAXREG:HTPcreate", "-", "HTPcreate not found")
+        return 0
+    refparam = f.params[2][0] if len(f.params) >= 3 else "ref"
+    a = _RegMax(prog, refparam)
+    a.fails = fail_values(f, prog)
+    a.run(f)
+    if a.bad:
+        ctx.violated("MAXREG", "MAXREG:HTPcreate", f.where(), "HTPcreate can return successfully without `maxref >= %s`: a later Hnewref may hand out a reference that is already in use" % refparam)
+    else:
+        ctx.holds("MAXREG", "MAXREG:HTPcreate", f.where(), "every non-failing path leaves maxref >= the registered reference", nontrivial=True)
+    return 1
